@@ -75,7 +75,7 @@ fn bit_array<const L: usize>(t: &[u8]) {
         }
         None => assert!(w > 0 && idx + w > bytes.len() * 8 - 0 || idx / 8 >= bytes.len(), "load fails only when it would read past the last byte"),
     }
-    vcover!(w > 8 && idx % 8 != 0 && ba.load(idx, w).is_some(), "unaligned load across a byte boundary");
+    vcover!(L < 9 || (w > 8 && idx % 8 != 0 && ba.load(idx, w).is_some()), "unaligned load across a byte boundary");
     vcover!(ba.load(idx, w).is_none(), "load out of range");
     core::mem::forget(bytes);
 }
@@ -86,44 +86,45 @@ harness!(bit_array_9, 4, |t| { bit_array::<9>(t) });
 harness!(bit_array_16, 4, |t| { bit_array::<16>(t) });
 harness!(bit_array_24, 5, |t| { bit_array::<24>(t) });
 
-/// push_word writes the low `bits` bits, little-endian, at any current alignment.
-harness!(push_word_roundtrip, 13, |t| {
+/// push_word writes the low `bits` bits, little-endian, at bit alignment PRE; a bit pushed
+/// afterwards lands right behind it.
+fn push_word<const PRE: usize, const W: usize>(t: &[u8]) {
     let mut t = Tape::new(t);
-    let pre = (t.u8() % 8) as usize; // bits already in the builder
-    let w = (t.u8() % 33) as usize;  // width 0..32
-    let word = t.u64() & ((1u64 << w) - 1);
+    let word = t.u64() & ((1u64 << W) - 1);
     let mut b = BitBuilder::with_capacity(64);
     let mut i = 0;
-    while i < pre {
+    while i < PRE {
         b.push(i % 2 == 0);
         i += 1;
     }
-    b.push_word(word, w);
-    assert!(b.len() == pre + w, "builder length after push_word");
-    // a single bit pushed after the word lands right behind it (also when the word ended on a
-    // byte boundary)
+    b.push_word(word, W);
+    assert!(b.len() == PRE + W, "builder length after push_word");
     let tail_bit = t.bool();
     b.push(tail_bit);
-    assert!(b.len() == pre + w + 1, "builder length after a following push");
+    assert!(b.len() == PRE + W + 1, "builder length after a following push");
     let bytes = b.seal();
     let ba = BitArray::new(&bytes);
-    if w > 0 {
-        assert!(ba.load(pre, w) == Some(word), "load reads back what push_word wrote");
+    if W > 0 {
+        assert!(ba.load(PRE, W) == Some(word), "load reads back what push_word wrote");
     }
-    assert!(ba.get(pre + w) == Some(tail_bit), "a bit pushed after push_word is stored right behind the word");
+    assert!(ba.get(PRE + W) == Some(tail_bit), "a bit pushed after push_word is stored right behind the word");
     let mut i = 0;
-    while i < pre {
+    while i < PRE {
         assert!(ba.get(i) == Some(i % 2 == 0), "earlier bits untouched");
         i += 1;
     }
-    vcover!(pre == 7 && w == 32, "maximally unaligned 32-bit word");
-    vcover!((pre + w) % 8 == 0 && w > 0, "word ends exactly on a byte boundary");
+    vcover!(W == 0 || word >> (W - 1) == 1, "top bit of the word set");
     core::mem::forget(bytes);
-});
+}
+harness!(push_word_p0_w8, 9, |t| { push_word::<0, 8>(t) });
+harness!(push_word_p3_w13, 9, |t| { push_word::<3, 13>(t) });
+harness!(push_word_p7_w17, 9, |t| { push_word::<7, 17>(t) });
+harness!(push_word_p5_w3, 9, |t| { push_word::<5, 3>(t) });
+harness!(push_word_p4_w0, 9, |t| { push_word::<4, 0>(t) });
 
 /// ReferenceBitVector: construct -> serialise -> parse -> access/rank/select/rank0/select0 for a
 /// symbolic query index against counting over the bool array.
-fn reference_bv<const L: usize>(t: &[u8]) {
+fn reference_bv<const L: usize, const SEL: bool>(t: &[u8]) {
     let mut t = Tape::new(t);
     let bits: [bool; L] = bits_of(&mut t);
     let mut buf: Vec<u8> = Vec::new();
@@ -154,6 +155,14 @@ fn reference_bv<const L: usize>(t: &[u8]) {
     assert!(bv.access_rank(x) == if x < L { Some((bits[x], ones_before)) } else { None }, "access_rank = (access, rank), None past the last bit");
     assert!(bv.rank(x) == if x <= L { Some(ones_before) } else { None }, "rank(x) = ones in [0, x)");
     assert!(bv.rank0(x) == if x <= L { Some(x - ones_before) } else { None }, "rank0(x) = zeros in [0, x)");
+    vcover!(total_ones == L, "all ones");
+    vcover!(total_ones == 0, "all zeros");
+    vcover!(x == L + 1, "query past the end");
+    if !SEL {
+        core::mem::forget(bv);
+        core::mem::forget(buf);
+        return;
+    }
     // select(k): position just past the k-th one (select(0) == 0)
     let k = x;
     let mut want_sel: Option<usize> = if k == 0 { Some(0) } else { None };
@@ -176,18 +185,16 @@ fn reference_bv<const L: usize>(t: &[u8]) {
     }
     assert!(bv.select(k) == want_sel, "select(k) = index just past the k-th set bit");
     assert!(bv.select0(k) == want_sel0, "select0(k) = index just past the k-th clear bit");
-    vcover!(total_ones == L, "all ones");
-    vcover!(total_ones == 0, "all zeros");
-    vcover!(x == L + 1, "query past the end");
     core::mem::forget(bv);
     core::mem::forget(buf);
 }
-harness!(#[kani::stub(alloc::fmt::format, stub_format)] reference_bv_0, 2, |t| { reference_bv::<0>(t) });
-harness!(#[kani::stub(alloc::fmt::format, stub_format)] reference_bv_1, 2, |t| { reference_bv::<1>(t) });
-harness!(#[kani::stub(alloc::fmt::format, stub_format)] reference_bv_7, 2, |t| { reference_bv::<7>(t) });
-harness!(#[kani::stub(alloc::fmt::format, stub_format)] reference_bv_8, 2, |t| { reference_bv::<8>(t) });
-harness!(#[kani::stub(alloc::fmt::format, stub_format)] reference_bv_9, 3, |t| { reference_bv::<9>(t) });
-harness!(#[kani::stub(alloc::fmt::format, stub_format)] reference_bv_16, 3, |t| { reference_bv::<16>(t) });
+harness!(#[kani::stub(alloc::fmt::format, stub_format)] reference_bv_0, 2, |t| { reference_bv::<0, true>(t) });
+harness!(#[kani::stub(alloc::fmt::format, stub_format)] reference_bv_1, 2, |t| { reference_bv::<1, true>(t) });
+harness!(#[kani::stub(alloc::fmt::format, stub_format)] reference_bv_rank_4, 2, |t| { reference_bv::<4, false>(t) });
+harness!(#[kani::stub(alloc::fmt::format, stub_format)] reference_bv_rank_8, 2, |t| { reference_bv::<8, false>(t) });
+harness!(#[kani::stub(alloc::fmt::format, stub_format)] reference_bv_rank_9, 3, |t| { reference_bv::<9, false>(t) });
+harness!(#[kani::stub(alloc::fmt::format, stub_format)] reference_bv_select_3, 2, |t| { reference_bv::<3, true>(t) });
+harness!(#[kani::stub(alloc::fmt::format, stub_format)] reference_bv_select_5, 2, |t| { reference_bv::<5, true>(t) });
 
 /// partition_by over every monotone predicate on [first, last].
 harness!(partition_by_all, 3, |t| {
@@ -209,6 +216,7 @@ harness!(partition_by_all, 3, |t| {
 });
 
 harness_list!(
-    bit_array_1, bit_array_7, bit_array_8, bit_array_9, bit_array_16, bit_array_24, push_word_roundtrip,
-    reference_bv_0, reference_bv_1, reference_bv_7, reference_bv_8, reference_bv_9, reference_bv_16, partition_by_all,
+    bit_array_1, bit_array_7, bit_array_8, bit_array_9, bit_array_16, bit_array_24,
+    push_word_p0_w8, push_word_p3_w13, push_word_p7_w17, push_word_p5_w3, push_word_p4_w0,
+    reference_bv_0, reference_bv_1, reference_bv_rank_4, reference_bv_rank_8, reference_bv_rank_9, reference_bv_select_3, reference_bv_select_5, partition_by_all,
 );
